@@ -10,6 +10,8 @@ import (
 
 type Connections struct {
 	data *sync.Map
+	// connections whose previous check has not returned yet
+	checking sync.Map
 }
 
 func New() *Connections {
@@ -57,8 +59,18 @@ func (c *Connections) CheckExpirations(now time.Time) {
 		case <-cc.Context().Done():
 			continue
 		default:
-			cc.CheckExpirations(now)
 		}
+		// The check of one connection may block - its keep-alive ping is written to a peer that does not read, or
+		// waits for a stalled handshake. That must not stop the checks of the other connections (they all run
+		// on the server's one housekeeping goroutine): every connection is checked on a goroutine of its own,
+		// and a connection whose previous check has not returned yet is skipped.
+		if _, running := c.checking.LoadOrStore(cc, struct{}{}); running {
+			continue
+		}
+		go func(cc Connection) {
+			defer c.checking.Delete(cc)
+			cc.CheckExpirations(now)
+		}(cc)
 	}
 }
 
